@@ -188,7 +188,7 @@ func (w *wireServer) handle(conn net.Conn, id int) {
 			resp = w.Respond(&req)
 		}
 		if req.Method == "HEAD" {
-			resp = "HTTP/1.1 200 OK\r\nContent-Length: 2\r\n\r\n"
+			resp = "HTTP/1.1 200 OK\r\nContent-Length: 5000\r\nX-Head: yes\r\n\r\n"
 		}
 		if _, err := io.WriteString(conn, resp); err != nil {
 			return
